@@ -109,6 +109,20 @@ func menu(typeNames []string, pick int) []query {
 		qs = append(qs, query{View: fmt.Sprintf("q.type.var-%v", incl), Root: "type", Name: n, Inc: incl, Prof: "full", Key: "__type", Text: byVarInc,
 			Vars: fmt.Sprintf(`{"n":%s,"inc":%v}`, jsonStr(n), incl), Op: "OneTypeInc"})
 	}
+	// ---- the introspection meta types (exemption EX_MetaTypesUnlisted: null or the right type)
+	{
+		metas := []string{"__Schema", "__Type", "__Field", "__InputValue", "__EnumValue", "__Directive", "__TypeKind", "__DirectiveLocation"}
+		var mb strings.Builder
+		mb.WriteString("query Meta {")
+		for i, n := range metas {
+			fmt.Fprintf(&mb, " m%d: __type(name: %s) { ...FullType }", i, jsonStr(n))
+		}
+		mb.WriteString(" }")
+		text := inc(mb.String()+fragments, "(includeDeprecated: true)")
+		for i, n := range metas {
+			qs = append(qs, query{View: "q.type.meta", Root: "type", Name: n, Inc: true, Prof: "full", Key: fmt.Sprintf("m%d", i), Text: text, Op: "Meta"})
+		}
+	}
 	// ---- every sub-field aliased (a_<field>: <field>), two types per case
 	for k := 0; k < 2 && k < len(typeNames); k++ {
 		n := typeNames[(pick+1+k*5)%len(typeNames)]
